@@ -27,20 +27,20 @@ Proof.
       cbn [app noTZ] in H. rewrite !Z.eqb_refl in H. discriminate.
 Qed.
 
-Theorem tzid_findall_kw pre k0 k1 k2 k3 name rest : nolower pre -> noTZ (pre ++ [84]) = true ->
-  kwd_ok k0 k1 k2 k3 -> name <> [] -> has_char 58 name = false -> nolower rest -> noTZ rest = true ->
-  tzid_findall (pre ++ [k0; k1; k2; k3; 61] ++ name ++ 58 :: rest) = [name].
+Theorem tzid_findall_kw pre k0 k1 k2 k3 name d rest : nolower pre -> noTZ (pre ++ [84]) = true ->
+  kwd_ok k0 k1 k2 k3 -> name <> [] -> nodelim name = true -> d = 58 \/ d = 59 -> nolower rest -> noTZ rest = true ->
+  tzid_findall (pre ++ [k0; k1; k2; k3; 61] ++ name ++ d :: rest) = [name].
 Proof.
-  intros Hlp Hpre [K0 [K1 [K2 K3]]] Hne H58 Hlr Hrest. unfold tzid_findall.
-  change ([k0; k1; k2; k3; 61] ++ name ++ 58 :: rest) with (k0 :: k1 :: k2 :: k3 :: 61 :: name ++ 58 :: rest).
+  intros Hlp Hpre [K0 [K1 [K2 K3]]] Hne H58 Hd Hlr Hrest. unfold tzid_findall.
+  change ([k0; k1; k2; k3; 61] ++ name ++ d :: rest) with (k0 :: k1 :: k2 :: k3 :: 61 :: name ++ d :: rest).
   rewrite scan_prefix_kw by assumption.
-  assert (S : startswith_ci s_TZIDeq (k0 :: k1 :: k2 :: k3 :: 61 :: name ++ 58 :: rest) = true).
+  assert (S : startswith_ci s_TZIDeq (k0 :: k1 :: k2 :: k3 :: 61 :: name ++ d :: rest) = true).
   { change s_TZIDeq with [84; 90; 73; 68; 61]. cbn [startswith_ci]. rewrite K0, K1, K2, K3. reflexivity. }
-  rewrite (scan_hit k0 (k1 :: k2 :: k3 :: 61 :: name ++ 58 :: rest) name (58 :: rest) S);
-    [|cbn [skipn]; apply span_colon, H58|exact Hne|discriminate].
-  assert (L : (4 + List.length name + 1)%nat = List.length (k1 :: k2 :: k3 :: 61 :: name ++ [58])).
+  rewrite (scan_hit k0 (k1 :: k2 :: k3 :: 61 :: name ++ d :: rest) name (d :: rest) S);
+    [|cbn [skipn]; apply span_colon; assumption|exact Hne|discriminate].
+  assert (L : (4 + List.length name + 1)%nat = List.length (k1 :: k2 :: k3 :: 61 :: name ++ [d])).
   { cbn [List.length]. rewrite app_length. cbn [List.length]. lia. }
-  replace (k1 :: k2 :: k3 :: 61 :: name ++ 58 :: rest) with ((k1 :: k2 :: k3 :: 61 :: name ++ [58]) ++ rest)
+  replace (k1 :: k2 :: k3 :: 61 :: name ++ d :: rest) with ((k1 :: k2 :: k3 :: 61 :: name ++ [d]) ++ rest)
     by (cbn [app]; rewrite <- app_assoc; reflexivity).
   rewrite L. rewrite scan_skip. rewrite (scan_noTZ rest O Hlr Hrest). reflexivity.
 Qed.
@@ -193,7 +193,7 @@ Proof.
   assert (C1 : Forall (fun ch => is_ascii ch = true /\ is_space ch = false) L1).
   { unfold L1. apply Forall_app; split; [repeat constructor|]. apply Forall_app; split; [destruct vp; repeat constructor|].
     constructor; [split; reflexivity|]. apply Forall_app; split; [exact KC|]. apply Forall_app; split.
-    - apply Forall_forall. intros x Hx. specialize (Hnm x Hx). unfold namec in Hnm.
+    - apply Forall_forall. intros x Hx. specialize (Hnm x Hx). unfold namec, namec_b in Hnm.
       destruct (is_ascii x), (is_space x); cbn in Hnm; try discriminate. split; reflexivity.
     - constructor; [split; reflexivity|]. eapply Forall_impl; [|exact Hdv]. intros ch Hc'.
       destruct (linec_props ch) as [P1 [_ P3]]; [unfold linec, valc; rewrite Hc'; reflexivity|]. split; assumption. }
@@ -211,11 +211,11 @@ Proof.
     { destruct vp; cbn [vtext app]; rewrite <- ?app_assoc; cbn [app]; rewrite <- ?app_assoc; cbn [app];
         rewrite <- ?app_assoc; reflexivity. }
     rewrite E. apply tzid_findall_kw; try (split; [|split; [|split]]; assumption);
-      [destruct vp; repeat constructor|destruct vp; reflexivity|exact Hne| | |apply rest_noTZ, Hk].
+      [destruct vp; repeat constructor|destruct vp; reflexivity|exact Hne| |left; reflexivity| |apply rest_noTZ, Hk].
     2: { apply Forall_app; split.
          - eapply Forall_impl; [|exact Hdv]. intros ch Hc'. apply valc_not_lower. unfold valc. rewrite Hc'. reflexivity.
          - constructor; [reflexivity|]. eapply Forall_impl; [|exact H2]. intros ch Hc'. apply linec_props, Hc'. }
-    apply has_char_false. apply Forall_forall. intros x Hx. specialize (Hnm x Hx). unfold namec, is_ascii, is_space in *. lia. }
+    apply namec_nodelim. exact Hnm. }
   assert (Hup1 : upper L1 = s_DTSTART ++ vtext vp ++ 59 :: s_TZIDeq ++ upper name ++ 58 :: dv).
   { unfold L1. rewrite !upper_app. cbn [upper map]. cbn [app map]. rewrite !map_app. cbn [map].
     fold (upper dv). fold (upper name).
@@ -235,14 +235,131 @@ Proof.
   apply tzid_two_lines_v; assumption.
 Qed.
 
-(* F-C13-f: a TZID parameter followed by another parameter is lost *)
-Theorem tzid_followed_by_parameter_refuted :
+(* formerly finding F-C13-f (fixed by 5fe9b57): a TZID parameter followed by another parameter keeps
+   its zone, like VALUE before TZID *)
+Example tzid_followed_by_parameter :
   let o := mkopts None false false false false false [(zs "Europe/Berlin", 3)] in
   let ev := mkenv 0 (mkdt 2000 1 1 0 0 0 0 0) in
   (exists r, parse_rfc ev o (zs "DTSTART;VALUE=DATE-TIME;TZID=Europe/Berlin:19970902T090000
 RRULE:FREQ=DAILY;COUNT=2") = RRule false r /\ dtz (r_dtstart r) = 3) /\
   (exists r, parse_rfc ev o (zs "DTSTART;TZID=Europe/Berlin;VALUE=DATE-TIME:19970902T090000
-RRULE:FREQ=DAILY;COUNT=2") = RRule false r /\ dtz (r_dtstart r) = 0).
-Proof. vm_compute. split; eexists; split; reflexivity. Qed.
+RRULE:FREQ=DAILY;COUNT=2") = RRule false r /\ dtz (r_dtstart r) = 3) /\
+  (exists xd, parse_rfc ev o (zs "EXDATE;TZID=Europe/Berlin;VALUE=DATE-TIME:19970902T090000") = RSet false [] [] [] xd
+              /\ map dtz xd = [3]).
+Proof. vm_compute. repeat split; eexists; split; reflexivity. Qed.
 
 Example ex_kwd : kwd_ok 116 122 73 100 /\ kwd_ok 84 90 73 68. Proof. repeat split. Qed.
+
+(* ---- TZID followed by VALUE=DATE-TIME (the order that 5fe9b57 repaired) ---- *)
+Lemma pdv_parms_tzid_v o names name tag : has_char 61 (upper name) = false ->
+  tzid_lookup names (upper name) = Some name -> tz_get (o_tzids o) name = tag ->
+  pdv_parms o names [s_TZIDeq ++ upper name; s_VALUE_DT] 0 false = Ok tag.
+Proof.
+  intros H61 Hl Hg. cbn [pdv_parms].
+  assert (S : startswith s_TZIDeq (s_TZIDeq ++ upper name) = true).
+  { change s_TZIDeq with [84; 90; 73; 68; 61]. cbn [app startswith]. rewrite !Z.eqb_refl. reflexivity. }
+  rewrite S, (after_last_tzid_name _ H61), Hl, Hg. reflexivity.
+Qed.
+
+Lemma tzid_two_lines_after ev o c d k name tag S : wf_kw k = true ->
+  valid_dt d = true -> dus d = 0 -> dtz d = 0 ->
+  forallb namec name = true -> tz_get (o_tzids o) name = tag -> tag <> 0 ->
+  o_forceset o = false -> o_compatible o = false -> o_ignoretz o = false ->
+  parse_lines ev o [name] S
+    [s_DTSTART ++ 59 :: s_TZIDeq ++ upper name ++ s_VALUEDTparm ++ 58 :: dt_spell (c_dshort c) d;
+     (if c_prefix c then s_RRULEc else []) ++ spell_value c k]
+  = single ev (o_cache o) (Some (with_tz d tag)) k.
+Proof.
+  intros Hk Hv Hus Htz Hnm Hg Ht Hf Hc Hi.
+  set (dv := dt_spell (c_dshort c) d).
+  destruct (upper_name_props name Hnm) as [U58 [U59 [U61 _]]].
+  unfold parse_lines. rewrite Hf, Hc. cbn [orb].
+  unfold shortcut. cbn [negb List.length andb Z.of_nat Pos.of_succ_nat Z.eqb Pos.eqb Pos.succ].
+  apply general_second; try assumption.
+  intro a. set (nm := s_DTSTART ++ 59 :: s_TZIDeq ++ upper name ++ s_VALUEDTparm).
+  assert (E : s_DTSTART ++ 59 :: s_TZIDeq ++ upper name ++ s_VALUEDTparm ++ 58 :: dv = nm ++ 58 :: dv).
+  { unfold nm. rewrite <- ?app_assoc. cbn [app]. rewrite <- ?app_assoc. reflexivity. }
+  rewrite E.
+  rewrite (do_line_DTSTART o [name] nm [s_TZIDeq ++ upper name; s_VALUE_DT] dv a).
+  - unfold parse_date_value. rewrite (pdv_parms_tzid_v o [name] name tag U61); [| |exact Hg].
+    + rewrite Hi. unfold dv. rewrite split_on_nosep by (apply atoms_no_char; [apply dt_spell_atoms|cbn; tauto]).
+      cbn [pdv_dates]. rewrite (parse_date_dt_spell (c_dshort c) d Hv Hus (or_introl Htz)).
+      rewrite Htz. replace (tag =? 0) with false by lia. cbn [negb andb Z.eqb]. reflexivity.
+    + unfold tzid_lookup. cbn [rev app find]. rewrite leqb_refl. reflexivity.
+  - unfold nm. rewrite split_on_app by reflexivity.
+    change (s_TZIDeq ++ upper name ++ s_VALUEDTparm) with (s_TZIDeq ++ upper name ++ 59 :: s_VALUE_DT).
+    rewrite app_assoc. rewrite split_on_app by (rewrite has_char_app, U59; reflexivity).
+    rewrite split_on_nosep by reflexivity. reflexivity.
+  - unfold nm. rewrite !has_char_app.
+    change (59 :: s_TZIDeq ++ upper name ++ s_VALUEDTparm) with ((59 :: s_TZIDeq) ++ upper name ++ s_VALUEDTparm).
+    rewrite !has_char_app, U58. reflexivity.
+Qed.
+
+Theorem rrulestr_tzid_value_after ev o c d k name tag k0 k1 k2 k3 : wf_kw k = true ->
+  valid_dt d = true -> dus d = 0 -> dtz d = 0 ->
+  name <> [] -> forallb namec name = true -> tz_get (o_tzids o) name = tag -> tag <> 0 ->
+  kwd_ok k0 k1 k2 k3 ->
+  o_forceset o = false -> o_compatible o = false -> o_ignoretz o = false -> o_unfold o = false ->
+  parse_rfc ev o (s_DTSTART ++ 59 :: [k0; k1; k2; k3; 61] ++ name ++ s_VALUEDTparm ++ 58 :: dt_spell (c_dshort c) d
+                  ++ 10 :: (if c_prefix c then s_RRULEc else []) ++ spell_value c k)
+  = single ev (o_cache o) (Some (with_tz d tag)) k.
+Proof.
+  intros Hk Hv Hus Htz Hne Hnm Hg Ht HK Hf Hc Hi Hu.
+  destruct (spell_value_chars c k Hk) as [Hch [H58 Hvne]].
+  set (dv := dt_spell (c_dshort c) d). set (l2 := (if c_prefix c then s_RRULEc else []) ++ spell_value c k).
+  set (L1 := s_DTSTART ++ 59 :: [k0; k1; k2; k3; 61] ++ name ++ s_VALUEDTparm ++ 58 :: dv).
+  assert (Hdv : Forall (fun ch => atomc ch = true) dv) by apply dt_spell_atoms.
+  assert (H2 : Forall (fun ch => linec ch = true) l2).
+  { apply Forall_app; split; [|exact Hch]. destruct (c_prefix c); repeat constructor. }
+  assert (N2 : l2 <> []) by (unfold l2; destruct (c_prefix c); [discriminate|exact Hvne]).
+  pose proof Hnm as Hnm'. rewrite forallb_forall in Hnm.
+  pose proof HK as HK'. destruct HK as [K0 [K1 [K2 K3]]].
+  assert (KC : Forall (fun ch => is_ascii ch = true /\ is_space ch = false) [k0; k1; k2; k3; 61]).
+  { repeat constructor; unfold upc, is_lower, is_ascii, is_space in *;
+      repeat match goal with H : (if ?b then _ else _) = _ |- _ => destruct b eqn:? end; lia. }
+  assert (C1 : Forall (fun ch => is_ascii ch = true /\ is_space ch = false) L1).
+  { unfold L1. apply Forall_app; split; [repeat constructor|].
+    constructor; [split; reflexivity|]. apply Forall_app; split; [exact KC|]. apply Forall_app; split.
+    - apply Forall_forall. intros x Hx. specialize (Hnm x Hx). unfold namec, namec_b in Hnm.
+      destruct (is_ascii x), (is_space x); cbn in Hnm; try discriminate. split; reflexivity.
+    - apply Forall_app; split; [repeat constructor|].
+      constructor; [split; reflexivity|]. eapply Forall_impl; [|exact Hdv]. intros ch Hc'.
+      destruct (linec_props ch) as [P1 [_ P3]]; [unfold linec, valc; rewrite Hc'; reflexivity|]. split; assumption. }
+  assert (NL1 : L1 <> []) by discriminate.
+  assert (SL1 : nosp L1) by (eapply Forall_impl; [|exact C1]; intros ch Hc'; apply Hc').
+  set (T := L1 ++ 10 :: l2).
+  assert (Hasc : forallb is_ascii T = true).
+  { unfold T. rewrite forallb_app. cbn [forallb]. rewrite (txt_ascii l2 (linec_txtc l2 H2)).
+    replace (forallb is_ascii L1) with true; [reflexivity|]. symmetry. apply forallb_forall.
+    rewrite Forall_forall in C1. intros x Hx. apply C1, Hx. }
+  assert (Hrest : nolower (dv ++ 10 :: l2)).
+  { apply Forall_app; split.
+    - eapply Forall_impl; [|exact Hdv]. intros ch Hc'. apply valc_not_lower. unfold valc. rewrite Hc'. reflexivity.
+    - constructor; [reflexivity|]. eapply Forall_impl; [|exact H2]. intros ch Hc'. apply linec_props, Hc'. }
+  assert (Hnames : tzid_findall T = [name]).
+  { unfold T, L1.
+    assert (E : (s_DTSTART ++ 59 :: [k0; k1; k2; k3; 61] ++ name ++ s_VALUEDTparm ++ 58 :: dv) ++ 10 :: l2
+                = (s_DTSTART ++ [59]) ++ [k0; k1; k2; k3; 61] ++ name ++ 59 :: (s_VALUE_DT ++ 58 :: (dv ++ 10 :: l2))).
+    { rewrite <- ?app_assoc. cbn [app]. rewrite <- ?app_assoc. cbn [app]. rewrite <- ?app_assoc. reflexivity. }
+    rewrite E. apply tzid_findall_kw; try exact HK';
+      [repeat constructor|reflexivity|exact Hne|apply namec_nodelim; exact Hnm|right; reflexivity| |].
+    - apply Forall_app; split; [repeat constructor|]. constructor; [reflexivity|exact Hrest].
+    - apply noTZ_app_sep; [lia|lia|reflexivity|apply rest_noTZ, Hk]. }
+  assert (Hup1 : upper L1 = s_DTSTART ++ 59 :: s_TZIDeq ++ upper name ++ s_VALUEDTparm ++ 58 :: dv).
+  { unfold L1. rewrite !upper_app. cbn [upper map]. cbn [app map]. rewrite !map_app. cbn [map].
+    fold (upper dv). fold (upper name).
+    rewrite (txt_upper dv) by (apply linec_txtc, valc_linec, atoms_vals, Hdv).
+    rewrite K0, K1, K2, K3.
+    change (upper s_DTSTART) with s_DTSTART. change (upc 59) with 59. change (upc 61) with 61. change (upc 58) with 58.
+    change (map upc s_VALUEDTparm) with s_VALUEDTparm. reflexivity. }
+  assert (ET : s_DTSTART ++ 59 :: [k0; k1; k2; k3; 61] ++ name ++ s_VALUEDTparm ++ 58 :: dv ++ 10 :: l2 = T).
+  { unfold T, L1. rewrite <- ?app_assoc. cbn [app]. rewrite <- ?app_assoc. cbn [app]. rewrite <- ?app_assoc. reflexivity. }
+  rewrite ET.
+  unfold parse_rfc. rewrite Hasc. cbn [negb]. unfold T.
+  rewrite strip_nonnil_app by assumption.
+  rewrite Hc, Hu. cbn [orb]. unfold get_lines.
+  rewrite words_two by (try assumption; apply linec_nosp, H2).
+  change (join [10] [L1; l2]) with (L1 ++ 10 :: l2). fold T. rewrite Hnames.
+  cbn [map]. rewrite Hup1, (txt_upper l2 (linec_txtc l2 H2)).
+  apply tzid_two_lines_after; assumption.
+Qed.
